@@ -1363,7 +1363,12 @@ impl DbInner {
 		self.shutdown.store(true, Ordering::SeqCst);
 		#[cfg(parity_db_verif)]
 		crate::verif::emit("Shutdown", &[]);
-		self.log_queue_wait.cv.notify_one();
+		{
+			// Notify while holding the lock the log worker holds between evaluating the
+			// throttle condition and waiting, otherwise the wake-up can be lost.
+			let _logged_bytes = self.log_queue_wait.work.lock();
+			self.log_queue_wait.cv.notify_one();
+		}
 		#[cfg(parity_db_verif)]
 		crate::verif::emit("ShutdownNotified", &[]);
 		self.flush_worker_wait.signal();
